@@ -5,6 +5,7 @@ import (
 	"time"
 
 	"github.com/yandex/pandora/core"
+	"go.uber.org/atomic"
 )
 
 type CompositeConf struct {
@@ -53,16 +54,21 @@ type compositeSchedule struct {
 	rwMu      sync.RWMutex
 	scheds    []core.Schedule // At least once schedule. First schedule can be finished.
 	leftAfter []int           // Tokens leftBefore, if known exactly, or at least tokens leftBefore otherwise.
+	started   atomic.Bool     // Set after first nested schedule has been started, by Start or first Next.
 }
 
 func (s *compositeSchedule) Start(startAt time.Time) {
 	s.rwMu.Lock()
 	defer s.rwMu.Unlock()
 	s.scheds[0].Start(startAt)
+	s.started.Store(true)
 }
 func (s *compositeSchedule) Next() (tx time.Time, ok bool) {
 	s.rwMu.RLock()
 	tx, ok = s.scheds[0].Next()
+	if !s.started.Load() {
+		s.started.Store(true)
+	}
 	if ok {
 		s.rwMu.RUnlock()
 		return // Got token, all is good.
@@ -110,6 +116,10 @@ func (s *compositeSchedule) Left() int {
 	if left == 0 {
 		if leftAfter >= 0 {
 			return leftAfter
+		}
+		if !s.started.Load() {
+			// Not started yet, so nothing is finished, and Left MUST NOT start nested schedules.
+			return -1
 		}
 		// leftAfter was unknown, at schedule create moment.
 		// But now, it can be finished. Let's shift, and try one more time.
